@@ -107,6 +107,25 @@ Theorem C28_prefix_route : forall cv fs d m name,
 Proof. exact C28_prefix_route_proof. Qed.
 Print Assumptions C28_prefix_route.
 
+(* "has it" as list_templates sees it: the listed name <prefix><delimiter><n> of a member template resolves — whenever
+   the FIRST occurrence of the delimiter in that name is the one after the prefix ... *)
+Theorem C28_prefix_listed_partial : forall cv fs d m p l n,
+  prefix_lookup p m = Some l -> split_once d (p ++ d ++ n) = Some (p, n) ->
+  get_source cv fs (LPrefix d m) (p ++ d ++ n) = get_source cv fs l n.
+Proof. intros cv fs d m p l n Hl Hs. rewrite get_source_prefix, Hs, Hl. reflexivity. Qed.
+Print Assumptions C28_prefix_listed_partial.
+
+(* ... and not otherwise: a prefix that itself contains the delimiter makes every template of its loader
+   unreachable although list_templates lists it (recorded known finding) *)
+Theorem C28_prefix_listed_refuted :
+  exists d m p l n c, (prefix_lookup p m = Some l) /\ (get_source posix nil l n = Found None None c) /\
+    (get_source posix nil (LPrefix d m) (p ++ d ++ n) = NotFound).
+Proof.
+  exists [47], [([97; 47; 98], LDict [([120], 7)])], [97; 47; 98], (LDict [([120], 7)]), [120], 7.
+  vm_compute. repeat split; reflexivity.
+Qed.
+Print Assumptions C28_prefix_listed_refuted.
+
 (* any composition: the answer is that of the first leaf loader on the route of the name that
    has the template; TemplateNotFound exactly when no leaf on the route has it *)
 Theorem C28_notfound_iff_none : forall cv fs l name,
